@@ -93,6 +93,8 @@ pub enum PoAct {
     TouchAll,
     /// CC 99 = 1 on each of the 15 other channels: many channels hold progress at once
     ProgressAll,
+    /// fault injection (probe): a message whose n-th getter call panics, fed under catch_unwind
+    AbortProbe(u8, u8),
     Reset,
     ResetProbe,
 }
@@ -147,6 +149,9 @@ pub struct PollSys {
     pub followup_values: Vec<u8>,
     pub deep_evals: std::sync::atomic::AtomicU64,
 }
+
+/// messages fed through the panicking third-party type (status without channel, data bytes)
+pub const ABORT_MSGS: [(u8, u8, u8); 6] = [(0xB0, 99, 1), (0xB0, 98, 1), (0xB0, 6, 1), (0xB0, 38, 1), (0xB0, 96, 1), (0x90, 1, 1)];
 
 pub fn cap_for(timeout: u64, mult: u64) -> u64 {
     if timeout >= T_INF {
@@ -712,6 +717,13 @@ impl System for PollSys {
             }
         }
         out.push(PoAct::TouchAll);
+        if self.report.c14 {
+            for i in 0..ABORT_MSGS.len() {
+                for n in 0..10u8 {
+                    out.push(PoAct::AbortProbe(i as u8, n));
+                }
+            }
+        }
         // (only in the exploration that also has the reset storms: the first channel)
         if depth <= 1 && self.report.reset && !self.storms.is_empty() {
             out.push(PoAct::ProgressAll);
@@ -738,10 +750,10 @@ impl System for PollSys {
         self.key_inner(s)
     }
     fn n_classes(&self) -> usize {
-        13
+        14
     }
     fn class_name(&self, i: usize) -> String {
-        ["feed-contributing-cc", "feed-cc-probe(concretisation)", "feed-other(expanded)", "feed-must-be-transparent", "poll", "tick-1ms", "reset", "reset-probe", "long-pause", "reset-storm", "touch-all-16-channels", "pumped-cycle", "progress-on-15-other-channels"][i].to_string()
+        ["feed-contributing-cc", "feed-cc-probe(concretisation)", "feed-other(expanded)", "feed-must-be-transparent", "poll", "tick-1ms", "reset", "reset-probe", "long-pause", "reset-storm", "touch-all-16-channels", "pumped-cycle", "progress-on-15-other-channels", "feed-aborted-by-a-panicking-getter(probe)"][i].to_string()
     }
     fn class_of(&self, a: &PoAct) -> usize {
         match a {
@@ -758,6 +770,7 @@ impl System for PollSys {
             PoAct::TouchAll => 10,
             PoAct::Pump(_) => 11,
             PoAct::ProgressAll => 12,
+            PoAct::AbortProbe(..) => 13,
         }
     }
     fn render(&self, a: &PoAct) -> String {
@@ -778,6 +791,7 @@ impl System for PollSys {
             PoAct::ResetStorm(i) => format!("resetstorm:{}:{}", self.storms[*i as usize].0, self.storms[*i as usize].1),
             PoAct::TouchAll => "touchall".to_string(),
             PoAct::ProgressAll => "progressall".to_string(),
+            PoAct::AbortProbe(i, n) => { let (st, d1, d2) = ABORT_MSGS[*i as usize]; format!("abortprobe:{}:{}:{}:{}", st | self.ch, d1, d2, n) }
             PoAct::Pump(i) => {
                 let n = self.pump_cycles.len();
                 let (reps, c) = if (*i as usize) < n { (self.pump_reps, &self.pump_cycles[*i as usize]) } else { (70_000, &self.pump_cycles[*i as usize - n]) };
@@ -808,6 +822,7 @@ impl System for PollSys {
                     format!("for _ in 0..{} {{ scanner.reset(); }}", n)
                 }
             }
+            PoAct::AbortProbe(..) => format!("// {} (a ShortMessage implementation whose n-th getter call panics, fed inside catch_unwind)", self.render(a)),
             PoAct::ProgressAll => format!("for c in 0..16 {{ if c != {} {{ scanner.feed(&helgoboss_midi::test_util::control_change(c, 99, 1)); }} }}", self.ch),
             PoAct::TouchAll => "for c in 0..16 { scanner.feed(&helgoboss_midi::test_util::note_on(c, 1, 1)); scanner.feed(&helgoboss_midi::test_util::control_change(c, 7, 1)); }".to_string(),
             PoAct::Pump(i) => {
@@ -896,6 +911,39 @@ impl PollSys {
                 } else {
                     self.pump(s, &self.pump_cycles[*i as usize - n], 70_000)
                 }
+            }
+            PoAct::AbortProbe(i, n) => {
+                let (st, d1, d2) = ABORT_MSGS[*i as usize];
+                let st = st | self.ch;
+                let mut v = Vec::new();
+                self.clock(s.now);
+                let mut sc = s.sc;
+                let msg = ForeignPanicky { s: st, d1: crate::midi::u7(d1), d2: crate::midi::u7(d2), calls: core::cell::Cell::new(0), panic_at: *n as u32 };
+                let r = xs::catch(|| sc.feed_msg(&msg));
+                if r.is_err() {
+                    self.clock(s.now);
+                    let mut full = s.sc;
+                    let _ = full.feed_msg(&raw(st, d1, d2));
+                    if sc != s.sc && sc != full {
+                        v.push(self.vx("aborted-feed-leaves-inconsistent-state", "getter-panics", || format!("feeding ({:#04X},{},{}) through a message type whose getter call #{} panics (caught by the caller) left the scanner in a state that is neither the prior one nor the one after the complete feed: {:?}", st, d1, d2, n, sc)));
+                    } else {
+                        // it must go on behaving like that state: polls now and after the timeout, and one more data entry
+                        let reference = if sc == s.sc { s.sc } else { full };
+                        for dt in [0u64, self.timeout.min(1 << 20) + 1] {
+                            self.clock(s.now + dt);
+                            let (mut a, mut b) = (sc, reference);
+                            let (pa, pb) = (a.poll_ch(self.ch), b.poll_ch(self.ch));
+                            let (fa, fb) = (a.feed_msg(&raw(0xB0 | self.ch, 6, 5)), b.feed_msg(&raw(0xB0 | self.ch, 6, 5)));
+                            let (qa, qb) = (a.poll_ch(self.ch), b.poll_ch(self.ch));
+                            if pa != pb || fa != fb || qa != qb {
+                                v.push(self.vx("aborted-feed-leaves-inconsistent-state", "getter-panics-behaviour", || format!("after an aborted feed of ({:#04X},{},{}) (getter call #{} panicked) the scanner == {} but behaves differently {} ticks later: poll {:?} / {:?}, feed(CC 6) {:?} / {:?}, poll {:?} / {:?}", st, d1, d2, n, if sc == s.sc { "its prior state" } else { "the state after the complete feed" }, dt, pa, pb, fa, fb, qa, qb)));
+                                break;
+                            }
+                        }
+                        self.clock(s.now);
+                    }
+                }
+                Step { strict: false, next: None, obs: r.is_err() as u64, violations: v }
             }
             PoAct::ProgressAll => {
                 self.clock(s.now);
